@@ -175,7 +175,7 @@ def standin(run, prop, tier, seed):
                    "bound": out.get("bound"), "violations": len(out.get("violations", []))}
     known = report.load_known(prop)
     for v in out.get("violations", [])[:5]:
-        if any(kf.get("clause") == v.get("clause") and kf.get("standin_region", "") and kf["standin_region"] in json.dumps(v) for kf in known):
+        if any(v.get("clause") in kf.get("clauses", [kf.get("clause")]) and kf.get("standin_region", "") and kf["standin_region"] in json.dumps(v) for kf in known):
             continue
         run.violation(f"standin:{v.get('clause')}", {"input": v.get("input"), "detail": v, "source": "bounded stand-in"}, True)
 
